@@ -122,10 +122,10 @@ func preBlock(fw *formatWriter, source []byte, cursor *commonmark.Cursor) (child
 		fw.s("[")
 		fw.s(curr.Child(0).Inline().LinkReference())
 		fw.s("]: ")
-		fw.s(curr.Child(1).Inline().Text(source))
+		fw.s(commonmark.NormalizeURI(curr.Child(1).Inline().Text(source)))
 		if curr.ChildCount() > 2 {
 			fw.s(` "`)
-			fw.s(curr.Child(2).Inline().Text(source))
+			fw.s(escapeTitle(curr.Child(2).Inline().Text(source)))
 			fw.s(`"`)
 		}
 		endBlock(fw, cursor)
@@ -270,13 +270,25 @@ func postInline(fw *formatWriter, source []byte, cursor *commonmark.Cursor) {
 			}
 			if title != nil {
 				fw.s(`"`)
-				fw.s(title.Text(source))
+				fw.s(escapeTitle(title.Text(source)))
 				fw.s(`"`)
 			}
 			fw.s(")")
 		}
 	}
 }
+
+// escapeTitle escapes the text of a link title
+// for use between double quotes.
+func escapeTitle(title string) string {
+	return titleEscaper.Replace(title)
+}
+
+var titleEscaper = strings.NewReplacer(
+	"\\", "\\\\",
+	"\"", "\\\"",
+	"&", "&amp;",
+)
 
 func isShortcutLinkOrImage(inline *commonmark.Inline) bool {
 	if k := inline.Kind(); k != commonmark.LinkKind && k != commonmark.ImageKind || inline.ChildCount() == 0 {
